@@ -275,9 +275,13 @@ func (s *Solver) Check(asserts []*Term, timeoutMs int, wantModel bool) (string, 
 	t0 := time.Now()
 	res := "unknown"
 	var model Model
+	feas := timeoutMs < 10000
+	if feas && order[0] == "cvc5" {
+		timeoutMs *= 4 // FP feasibility queries: 1-2 s unloaded, more under load; an unknown costs far more downstream
+	}
 	for i, kind := range order {
 		tmo := timeoutMs
-		if i > 0 && timeoutMs < 2000 {
+		if i > 0 && feas {
 			break // cheap feasibility queries are not raced
 		}
 		r, m := s.runOn(kind, body, vars, tmo, wantModel)
@@ -293,6 +297,9 @@ func (s *Solver) Check(asserts []*Term, timeoutMs int, wantModel bool) (string, 
 		}
 	}
 	el := time.Since(t0)
+	if os.Getenv("GOSX_QTIMES") != "" {
+		fmt.Fprintf(os.Stderr, "QTIME %s %.2fs timeout=%d fp=%v size=%d\n", res, el.Seconds(), timeoutMs, hasFP(asserts), len(body))
+	}
 	gStats.Lock()
 	gStats.queries++
 	gStats.nanos += el.Nanoseconds()
